@@ -1,3 +1,5 @@
+//go:build c15 || allprops
+
 package main
 
 import (
@@ -77,13 +79,6 @@ func c15Ranges(rs []imapnum.Range) string {
 		parts[i] = fmt.Sprintf("%d-%d", r.Start, r.Stop)
 	}
 	return strings.Join(parts, ",")
-}
-
-func b01(b bool) string {
-	if b {
-		return "1"
-	}
-	return "0"
 }
 
 // c15Set abstracts over the three flavours.
